@@ -257,6 +257,7 @@ class Interp(object):
         self.max_steps = 2000000
         self.info_stack = []
         self.iter_hook = None              # hook(obj, FuncInfo): every iteration started by interpreted code
+        self.ghost_attrs = {}              # id(lxml element) -> (element, {attribute: symbolic text})
         self.symkey_dicts = {}             # id -> dict that holds symbolic text keys (kept alive here)
         self.set_order = None              # None | 'sorted' | 'reversed' | 'rotated': adversarial set iteration order
 
@@ -887,6 +888,14 @@ class Interp(object):
                 m = METHOD_MODELS.get((fn.__objclass__, fn.__name__))
                 if m is not None:
                     return m(self, *args, **kwargs)
+            if m is None and args and not isinstance(args[0], (Sym, FmtStr)):
+                # methods of extension types that are not method descriptors (cython functions)
+                nm = getattr(fn, '__name__', None)
+                if nm is not None and getattr(type(args[0]), nm, None) is fn:
+                    for klass in type(args[0]).__mro__:
+                        m = METHOD_MODELS.get((klass, nm))
+                        if m is not None:
+                            return m(self, *args, **kwargs)
             if m is None:
                 if getattr(fn, '_pyvc_accepts_sym', False):
                     return fn(*args, **kwargs)
